@@ -231,7 +231,11 @@ func (e *Engine) stdModel(f *frame, fn *ssa.Function, args []Val, pos token.Pos)
 		// as that method says, whatever way the reader fragments its data across Read calls
 		// (io.ReadAtLeast keeps calling Read until buf is full or Read fails)
 		r, buf := args[0], args[1]
+		known, haveKnown := e.knownConst(r.C[0])
 		for _, t := range e.concreteTypes() {
+			if haveKnown && uint64(e.tagOf(t)) != known {
+				continue // a precondition pins the reader's dynamic type: use that model
+			}
 			ms := e.Prog.MethodSets.MethodSet(t)
 			for i := 0; i < ms.Len(); i++ {
 				if ms.At(i).Obj().Name() != "verifReadFull" {
